@@ -377,7 +377,21 @@ pub fn module(m: &Value, st: &mut Style) -> String {
         let epi = s(&b["epi"]);
         let (hp, he) = (pro != "\n", epi != "\n");
         let name = s(&b["name"]);
-        if hp && !he && !st.coin() {
+        if let Some(pro2) = b.get("pro2").and_then(|v| v.as_str()) {
+            // one braced block with two prologues
+            out.push_str(&format!("backend {name} {{\n"));
+            out.push_str(&format!("prologue {};\n", lit_str(pro)));
+            if he && st.coin() {
+                out.push_str(&format!("epilogue {};\n", lit_str(epi)));
+                out.push_str(&format!("prologue {};\n", lit_str(pro2)));
+            } else {
+                out.push_str(&format!("prologue {};\n", lit_str(pro2)));
+                if he {
+                    out.push_str(&format!("epilogue {};\n", lit_str(epi)));
+                }
+            }
+            out.push_str("}\n");
+        } else if hp && !he && !st.coin() {
             out.push_str(&format!("backend {name} prologue {};\n", lit_str(pro)));
         } else if he && !hp && !st.coin() {
             out.push_str(&format!("backend {name} epilogue {};\n", lit_str(epi)));
